@@ -55,6 +55,29 @@ theorem C17_packets_atomic (todos : List (List (List UInt8))) (sched : List Nat)
   show s.buf.take s.pseq = s.done.flatten
   exact h.vis
 
+/-- Mutual exclusion and the shape of the critical section.  In every reachable
+state of the locked program a thread inside `writeMessage` is the holder of
+`wmu` and has a packet in hand, every other thread is outside; from the
+reservation on its `start` *is* the producer cursor (so it makes no difference
+that `WriteCommit`/`Write` re-read the cursor instead of using the value
+`WriteWait` returned), and after `Encode` the bytes at the cursor are the packet
+in hand. -/
+theorem C17_critical_section (todos : List (List (List UInt8))) (sched : List Nat) :
+    let s := run true (init todos) sched
+    ∀ t th, s.ths[t]? = some th → th.pc ≠ .idle →
+      s.holder = some t ∧ th.todo ≠ [] ∧
+      (∀ u thu, s.ths[u]? = some thu → u ≠ t → thu.pc = .idle) ∧
+      (th.pc = .reserved ∨ th.pc = .encoded → th.start = s.pseq) ∧
+      (th.pc = .encoded → ∀ m rest, th.todo = m :: rest → (s.buf.drop s.pseq).take m.length = m) := by
+  intro s t th hth hne
+  obtain ⟨log, h⟩ := inv_reachable todos sched
+  have hok := h.ths t th hth
+  refine ⟨hok.holder hne, hok.work hne, fun u thu hu hut => h.others_idle (hok.holder hne) hu hut,
+    hok.start, ?_⟩
+  intro hpc m rest htd
+  rw [← hok.start (Or.inr hpc)]
+  exact hok.bytes hpc m rest htd
+
 /-- Every packet in the stream is one of the packets some writer was given. -/
 theorem C17_packets_whole (todos : List (List (List UInt8))) (sched : List Nat) :
     let s := run true (init todos) sched
